@@ -17,7 +17,9 @@ mod c15;
 mod c16;
 mod c17;
 mod c18;
+mod codes;
 mod decoders;
+mod sha256;
 mod linalg2;
 
 use util::Args;
@@ -41,6 +43,7 @@ fn main() {
             _ => { a.extra.push(argv[k].clone()); k += 1; }
         }
     }
+    assert_eq!(sha256::sha256_hex(b"abc"), "ba7816bf8f01cfea414140de5dae2223b00361a396177a9cb410ff61f20015ad");
     util::quiet_panics();
     match (mode.as_str(), prop.as_str()) {
         ("gen", "C01") => c01::generate(&a),
@@ -50,6 +53,9 @@ fn main() {
         ("gen", "C04") => arith::generate_c04(&a),
         ("gen", "C05") => arith::generate_c05(&a),
         ("gen", "C02") => c02::generate_c02(&a),
+        ("gen", "C06") => codes::generate_c06(&a),
+        ("gen", "C07") => codes::generate_c07(&a),
+        ("pins", _) => codes::write_pins(&a),
         ("gen", "C08") => c08::generate(&a),
         ("gen", "C09") => c02::generate_c09(&a),
         ("gen", "C11") => c11::generate(&a),
